@@ -23,6 +23,11 @@ class Gen(object):
         self.r = random.Random(seed)
         self.p = dict(DEFAULT)
         self.p.update(profile)
+        if self.p["start"] == "boundary":
+            # a blur interval that is not tied to the sweep period, and a start shortly before one of its multiples
+            b = self.r.choice([600, 900, 3600, 3600])
+            self.p["blur"] = b
+            self.p["start"] = b * TICKS * self.r.choice([2, 3, 5]) - self.r.randrange(100, 1300) * TICKS
         self.t = self.p["start"]
         self.h = []
         self.nextc = 1
